@@ -154,7 +154,7 @@ def Q.step (keys : List Nat) (q : Q) : QOp → Q
   | .putDeferred it key wait now => (q.putDeferred it key wait now).1
   | .get now choice =>
     match q.getAttempt now keys choice with
-    | (q', .badChoice) => (q.promote now)   -- promotions happen regardless; a bad choice delivers nothing
+    | (_, .badChoice) => (q.promote now)   -- promotions happen regardless; a bad choice delivers nothing
     | (q', _) => q'
   | .taskDone key => (q.taskDone key).getD q
   | .joinBegin => q.joinBegin
